@@ -17,7 +17,7 @@
 (*            names found in bytesU (else ill: not the message meant).         *)
 (*   informational: len(bytesC) against CompressLen!PackImpl over the plan     *)
 (*            read off su (register 5; a deviation is logged, not a verdict).  *)
-(* Registers: 2 bad events, 3 ill events <<l, why>>, 4 <<l, stage, type>>,     *)
+(* Registers: 2 bad events, 3 ill events <<l, why>>, 4 <<l, stage, where, type>>,     *)
 (*            5 PackImpl deviations <<l, observed, predicted>>.                *)
 EXTENDS Compress, TraceBase
 
@@ -27,15 +27,15 @@ VARIABLE l
 
 Ev == Trace[l]
 
-\* the RR type a verdict is about: of the offending pointer, else of the name at / before the first difference
-StageType(e, stage) ==
+\* where a verdict points: the offending pointer, else the name at / before the first difference
+StageWhere(e, stage) ==
   LET pc == PtrBad(e.sc, TRUE)  pu == PtrBad(e.su, FALSE) IN
-  IF pu # -1 THEN pu
+  IF pu # 0 THEN WhereOf(e.su, pu)
   ELSE IF stage = "not-transparent" THEN
     LET d  == IF Len(e.sc) # Len(e.su) THEN Min(Len(e.sc), Len(e.su)) ELSE FirstDiff(e.sc, e.su, e.bytesC, e.bytesU)
         ns == { x \in 1..Len(e.sc) : x <= d /\ e.sc[x].k = "n" }
-    IN IF ns = {} THEN -1 ELSE e.sc[CHOOSE x \in ns : \A y \in ns : y <= x].t
-  ELSE pc
+    IN IF ns = {} THEN <<"-", 0>> ELSE WhereOf(e.sc, CHOOSE x \in ns : \A y \in ns : y <= x)
+  ELSE WhereOf(e.sc, pc)
 
 \* the packing plan read off the uncompressed stream (names with their flags, the octets between them)
 RECURSIVE PlanFrom(_, _, _, _)
@@ -68,7 +68,7 @@ Next == /\ l <= Len(Trace)
                ill == Ill(e, stage)
                pred == PackImpl(PlanFrom(e.su, 1, 0, <<>>), 12, CompressibleOctets(e.bytesU))
            IN /\ IF ill # "ok" THEN TLCSet(3, Append(TLCGet(3), <<l, ill>>))
-                 ELSE IF stage # "ok" THEN MarkBad(l) /\ TLCSet(4, Append(TLCGet(4), <<l, stage, StageType(e, stage)>>))
+                 ELSE IF stage # "ok" THEN MarkBad(l) /\ TLCSet(4, Append(TLCGet(4), <<l, stage, StageWhere(e, stage)[1], StageWhere(e, stage)[2]>>))
                  ELSE TRUE
               /\ IF pred # Len(e.bytesC) THEN TLCSet(5, Append(TLCGet(5), <<l, Len(e.bytesC), pred>>)) ELSE TRUE
         /\ HW(l)
